@@ -18,6 +18,8 @@ pub enum Site {
     Gate(usize, u8),
     /// several wires of one gate at once (index into GATE2_KINDS)
     Gate2(usize, usize),
+    /// the constants of two explicit constraints shifted by +delta and -delta
+    KPair(usize, usize),
 }
 
 /// (sign of the shift on l, r, o; recompute o = l*r afterwards)
@@ -40,6 +42,7 @@ impl Site {
             Site::KStruct(k) => json!({"kind": "constant-structural", "index": k}),
             Site::Gate(g, f) => { let fl = ["l", "r", "o"][*f as usize]; json!({"kind": "gate", "index": g, "field": fl}) }
             Site::Gate2(g, k) => json!({"kind": "gate2", "index": g, "field": GATE2_KINDS[*k].2}),
+            Site::KPair(a, b) => json!({"kind": "constant-pair", "index": a, "second": b}),
         }
     }
     pub fn from_json(v: &Value) -> Site {
@@ -48,6 +51,7 @@ impl Site {
             "witness" => Site::Witness(i),
             "constant" => Site::KConst(i),
             "constant-structural" => Site::KStruct(i),
+            "constant-pair" => Site::KPair(i, v["second"].as_u64().unwrap() as usize),
             "gate2" => Site::Gate2(i, GATE2_KINDS.iter().position(|k| Some(k.2) == v["field"].as_str()).unwrap()),
             _ => Site::Gate(i, ["l", "r", "o"].iter().position(|x| Some(*x) == v["field"].as_str()).unwrap() as u8),
         }
@@ -57,6 +61,7 @@ impl Site {
             Site::Witness(i) => Dev::Witness { idx: *i, delta },
             Site::KConst(k) => Dev::KConst { k: *k, delta, both: true },
             Site::KStruct(_) => unreachable!(),
+            Site::KPair(a, b) => Dev::KConstPair { k1: *a, k2: *b, delta },
             Site::Gate(g, f) => Dev::Gate { gate: *g, field: *f, delta },
             Site::Gate2(g, k) => {
                 let sg = |x: i8| if x > 0 { delta } else if x < 0 { -delta } else { F::zero() };
@@ -76,6 +81,11 @@ pub fn sites(p: &Program) -> Vec<Site> {
     for i in 0..k {
         out.push(Site::KConst(i));
         out.push(Site::KStruct(i));
+    }
+    for a in 0..k {
+        for b in a + 1..k {
+            out.push(Site::KPair(a, b));
+        }
     }
     for i in 0..g {
         for f in 0..3 {
@@ -148,7 +158,7 @@ pub fn run_case<G: Cv>(env: &Env<G>, c: &Case, seed: u64) -> Out {
     let proof = pr.obj.clone().expect("proof object");
     // the verifier sees the statement: constants shifted on both sides stay shifted there
     let vdev = match &dev {
-        Dev::KConst { .. } | Dev::KConstStruct { .. } => dev.clone(),
+        Dev::KConst { .. } | Dev::KConstStruct { .. } | Dev::KConstPair { .. } => dev.clone(),
         _ => Dev::None,
     };
     let vr = match guarded(|| program::verify::<G>(&c.prog, &env.pc, &env.bp, seed, vdev, &pr.commitments, &proof, program::LABEL)) {
@@ -243,7 +253,7 @@ pub fn cases(tier: Tier) -> (Vec<Case>, Value) {
     for sp in ["C M Ka", "C M Ka R[M Ka M]", "C Kd", "C C Xab R[Xca Kc]"] {
         let sp = Program::parse(sp).expect("subject");
         for s in sites(&sp) {
-            if matches!(s, Site::Gate2(..)) {
+            if matches!(s, Site::Gate2(..) | Site::KPair(..)) {
                 continue;
             }
             for h in crate::history::histories(if tier == Tier::Quick { 1 } else { 2 }) {
@@ -257,7 +267,7 @@ pub fn cases(tier: Tier) -> (Vec<Case>, Value) {
         }
     }
     let b = json!({"history_cases": n_hist, "histories": "every history of earlier same-thread calls (history.rs alphabet) of depth 1 in front of every single-site case of four subjects", "program_space": desc, "size_family": format!("S({})", sn), "programs": all.len(),
-        "sites": "every witness input (C value, A value, M inputs; both phases) shifted on the prover only; every explicit constraint constant shifted on both roles; every gate x {l,r,o} overwritten through hook H1; every gate x 7 multi-wire patterns (opposite / equal shifts on two wires, with and without a recomputed output)",
+        "sites": "every witness input (C value, A value, M inputs; both phases) shifted on the prover only; every explicit constraint constant shifted on both roles; every pair of explicit constraints with constants shifted by +delta / -delta on both roles (two violated rows with cancelling residuals); every gate x {l,r,o} overwritten through hook H1; every gate x 7 multi-wire patterns (opposite / equal shifts on two wires, with and without a recomputed output)",
         "deltas": DELTA_NAMES});
     (out, b)
 }
@@ -288,6 +298,7 @@ pub fn main(o: &Opts) -> i32 {
                 Site::Witness(_) => "witness",
                 Site::KConst(_) => "constant",
                 Site::KStruct(_) => "constant-structural",
+                Site::KPair(..) => "constant-pair",
                 Site::Gate(..) => "gate",
                 Site::Gate2(..) => "gate2",
             };
